@@ -59,10 +59,10 @@ falsealarm)
   K="${1:-5}"; fail=0
   for s in $(seq 1 $K); do
     for p in $ALL; do
-      VERIF_SEED=$((1000+s*7919)) "$VERIF_DIR/check" $p quick --no-evidence > /dev/shm/selftest.$$.fa 2>&1; code=$?
-      if [ $code -ne 0 ]; then echo "falsealarm seed=$((1000+s*7919)) $p: exit $code"; grep -E "^VIOLATION|HARNESS" /dev/shm/selftest.$$.fa | head -3; fail=1; fi
+      VERIF_SEED=$((${SEED_BASE:-1000}+s*7919)) "$VERIF_DIR/check" $p quick --no-evidence > /dev/shm/selftest.$$.fa 2>&1; code=$?
+      if [ $code -ne 0 ]; then echo "falsealarm seed=$((${SEED_BASE:-1000}+s*7919)) $p: exit $code"; grep -E "^VIOLATION|HARNESS" /dev/shm/selftest.$$.fa | head -3; fail=1; fi
     done
-    echo "falsealarm: seed $((1000+s*7919)) done"
+    echo "falsealarm: seed $((${SEED_BASE:-1000}+s*7919)) done"
   done
   exit $fail;;
 *) echo "usage: ./check selftest determinism|seams|sensitivity|falsealarm"; exit 2;;
